@@ -245,6 +245,9 @@ class Unit:
         #
 
         if base_value is not None:
+            # data handed in by the caller (Unit.copy): the unit is not what the
+            # registry resolves the string to and must not answer for the string
+            unit_cache_key = None
             # check that base_value is a float or can be converted to one
             try:
                 base_value = float(base_value)
